@@ -20,7 +20,7 @@
    it with C05_history into a total-correctness statement. *)
 From Coq Require Import ZArith List.
 From Tickit Require Import RectDefs RectSetDefs RectSetSpec RectSetProofs RectSetQueries
-  RectSetSubtract RectSetHistory RectSetTerm RectSetTermSub.
+  RectSetSubtract RectSetHistory RectSetTerm RectSetTermSub RectSetOracle.
 Import ListNotations.
 Local Open Scope Z_scope.
 
@@ -124,6 +124,16 @@ Print Assumptions C05_oracle_region.
 Theorem C05_oracle_sorted : forall s, sortedb s = true <-> sorted s.
 Proof. exact sortedb_iff. Qed.
 Print Assumptions C05_oracle_sorted.
+
+(* the oracle is sound: if the extracted checker accepts the observations of a case, then
+   every reported array is non-empty / pairwise disjoint / sorted and covers exactly the
+   region of the history so far -- for all cells of the plane -- and every query answer is
+   exact ([history_okP] threads [regionb_step] through the commands; [state_ok], [query_ok]
+   are the Prop statements) *)
+Theorem C05_oracle_sound : forall cs os,
+  case_checkb cs os = true -> history_okP (fun _ => false) cs os.
+Proof. exact case_checkb_sound. Qed.
+Print Assumptions C05_oracle_sound.
 
 (* the pinned code (before fixes/C05-stale-rect.patch) violates the property: three adds
    after which cell (0,0) of the reference region is not covered *)
